@@ -148,6 +148,10 @@ type c20dumper struct {
 	nInc   int
 	nLeaf  int
 	schema bool // also walk optional arcs and pattern constraints
+	// marks: per path, the rendered default branches of every MARKED disjunction among the
+	// vertex's leaf conjuncts (one entry per such conjunct), wherever it comes from
+	// (pattern, comprehension, definition, embedding). Only filled when non-nil.
+	marks map[string][][]string
 }
 
 func c20errClass(b *adt.Bottom) string {
@@ -300,6 +304,11 @@ func (d *c20dumper) vertex(v *adt.Vertex, path string) {
 	if key == "" {
 		key = "."
 	}
+	if d.marks != nil {
+		if ms := d.markedDisjunctions(v); len(ms) > 0 {
+			d.marks[key] = ms
+		}
+	}
 	descend := false
 	switch b := dv.BaseValue.(type) {
 	case *adt.Bottom:
@@ -379,9 +388,55 @@ func (d *c20dumper) vertex(v *adt.Vertex, path string) {
 	}
 }
 
+// markedDisjunctions lists, for every leaf conjunct of v that is a disjunction with default
+// marks, the canonical rendering of its marked branches ("?" for a branch that is not a
+// plain value).
+func (d *c20dumper) markedDisjunctions(v *adt.Vertex) (out [][]string) {
+	defer func() {
+		if r := recover(); r != nil {
+			out = nil
+		}
+	}()
+	for c := range v.LeafConjuncts() {
+		switch x := c.Elem().(type) {
+		case *adt.DisjunctionExpr:
+			if !x.HasDefaults {
+				continue
+			}
+			var defs []string
+			for _, b := range x.Values {
+				if !b.Default {
+					continue
+				}
+				if val, ok := b.Val.(adt.Value); ok {
+					defs = append(defs, d.value(val))
+				} else {
+					defs = append(defs, "?")
+				}
+			}
+			if len(defs) > 0 {
+				out = append(out, defs)
+			}
+		case *adt.Disjunction:
+			if !x.HasDefaults || x.NumDefaults == 0 {
+				continue
+			}
+			var defs []string
+			for i, b := range x.Values {
+				if i < x.NumDefaults {
+					defs = append(defs, d.value(b))
+				}
+			}
+			out = append(out, defs)
+		}
+	}
+	return out
+}
+
 type c20Eval struct {
-	dump   string // property-level canonical form
-	schema string // + optional fields and pattern constraints (statistics only)
+	marks  map[string][][]string // marked-disjunction conjuncts per path (original value)
+	dump   string                // property-level canonical form
+	schema string                // + optional fields and pattern constraints (statistics only)
 	nErr   int
 	nInc   int
 	nPaths int
@@ -397,9 +452,10 @@ func c20Evaluate(l *c20Loaded) (e c20Eval, err error) {
 	}()
 	r, v := value.ToInternal(l.val)
 	ctx := adt.NewContext(r, v)
-	d := &c20dumper{r: r, ctx: ctx, out: map[string]string{}, budget: 20000, stack: map[*adt.Vertex]bool{}}
+	d := &c20dumper{r: r, ctx: ctx, out: map[string]string{}, budget: 20000, stack: map[*adt.Vertex]bool{}, marks: map[string][][]string{}}
 	d.vertex(v, "")
 	e.dump = c20join(d.out)
+	e.marks = d.marks
 	e.nErr, e.nInc, e.nPaths = d.nErr, d.nInc, len(d.out)
 	s := &c20dumper{r: r, ctx: ctx, out: map[string]string{}, budget: 20000, stack: map[*adt.Vertex]bool{}, schema: true}
 	s.vertex(v, "")
@@ -437,6 +493,73 @@ func c20TrimPkg(p c20Pkg) (out c20Pkg, before c20Eval, loadErr, trimErr error) {
 		return out, before, nil, fmt.Errorf("format after trim: %v", err)
 	}
 	return out, before, nil, nil
+}
+
+type c20PathDiff struct{ path, before, after string } // "" = absent
+
+// c20DiffPaths lists the paths at which two canonical dumps differ.
+func c20DiffPaths(a, b string) []c20PathDiff {
+	am, bm := map[string]string{}, map[string]string{}
+	for _, l := range strings.Split(a, "\n") {
+		if k, v, ok := strings.Cut(l, " = "); ok {
+			am[k] = v
+		}
+	}
+	for _, l := range strings.Split(b, "\n") {
+		if k, v, ok := strings.Cut(l, " = "); ok {
+			bm[k] = v
+		}
+	}
+	var out []c20PathDiff
+	for k, v := range am {
+		if w, ok := bm[k]; !ok || w != v {
+			out = append(out, c20PathDiff{k, v, w})
+		}
+	}
+	for k, w := range bm {
+		if _, ok := am[k]; !ok {
+			out = append(out, c20PathDiff{k, "", w})
+		}
+	}
+	sort.Slice(out, func(i, j int) bool { return out[i].path < out[j].path })
+	return out
+}
+
+// c20SemanticClass attributes an evaluation change to a root cause by looking at the
+// ORIGINAL evaluated vertices. "multi-default-vertex": at every differing path the original
+// vertex unifies two or more MARKED disjunctions (whatever brought them there) and the
+// trimmed value is an unresolved disjunction that still offers defaults of at least two of
+// them (the ambiguous combination of their defaults). "" = no attribution.
+func c20SemanticClass(before c20Eval, afterDump string) string {
+	diffs := c20DiffPaths(before.dump, afterDump)
+	if len(diffs) == 0 {
+		return ""
+	}
+	for _, df := range diffs {
+		ms := before.marks[df.path]
+		if len(ms) < 2 || df.before == "" || !strings.HasPrefix(df.after, "|(") || df.after == df.before {
+			return ""
+		}
+		// defaults of how many different marked conjuncts are among the disjuncts left?
+		inner := strings.TrimSuffix(strings.TrimPrefix(df.after, "|("), ")")
+		have := map[string]bool{}
+		for _, x := range strings.Split(inner, ",") {
+			have[strings.TrimPrefix(x, "*")] = true
+		}
+		contributors := 0
+		for _, defs := range ms {
+			for _, dv := range defs {
+				if dv == "?" || have[dv] {
+					contributors++
+					break
+				}
+			}
+		}
+		if contributors < 2 {
+			return ""
+		}
+	}
+	return "multi-default-vertex"
 }
 
 // c20DiffDumps returns the first few differing lines of two canonical dumps.
